@@ -7,7 +7,11 @@ const MIXED: [&str; 14] = [
     "ALPHA", "Alpha", "aLpHa", "BETA", "Beta", "RC", "Rc", "PRE", "Pre", "PL", "Pl", "NB", "Nb",
     "nB",
 ];
-const PREFIXES: [&str; 8] = ["al", "alph", "bet", "be", "pr", "r", "p", "n"];
+const PREFIXES: [&str; 18] = [
+    "al", "alph", "bet", "be", "pr", "r", "p", "n",
+    // a modifier directly behind a proper prefix of itself
+    "alalpha", "alphalpha", "bbeta", "betbeta", "prpre", "ppre", "rrc", "ppl", "nnb", "nnb1",
+];
 const JUNK: [&str; 14] = ["+", "~", ",", "!", "=", "*", "[", " ", "é", "€", "😀", "/", ":", "@"];
 const NUMS: [&str; 14] = [
     "0", "1", "2", "3", "9", "10", "00", "007", "01", "20240101", "99", "100", "2147483648",
@@ -312,8 +316,8 @@ pub fn has_free_letter(v: &str) -> bool {
 }
 
 /// Reduced token alphabet for the exhaustive sweep `SMALL(k)`.
-pub const SMALL_TOKENS: [&str; 12] =
-    ["0", "1", "2", ".", "_", "alpha", "beta", "rc", "pre", "pl", "nb1", "nb2"];
+pub const SMALL_TOKENS: [&str; 14] =
+    ["0", "1", "2", ".", "_", "alpha", "beta", "rc", "pre", "pl", "nb1", "nb2", "a", "B"];
 
 /// Every string of <= k tokens over SMALL_TOKENS.
 pub fn small(k: usize) -> Vec<String> {
